@@ -136,8 +136,16 @@ type controller struct {
 
 var active atomic.Pointer[controller]
 
+var stressTick atomic.Uint64
+
 func init() {
 	caddy.VerifUsagePoolYield = func(up *caddy.UsagePool, point int, l *sync.RWMutex) {
+		if stressOn.Load() {
+			if stressTick.Add(1)%3 == 0 {
+				runtime.Gosched()
+			}
+			return
+		}
 		c := active.Load()
 		if c == nil || c.up != up {
 			return
